@@ -23,6 +23,7 @@ type checkSpec struct {
 	Probes         []string
 	Real, Stub     []string
 	Assumptions    []string
+	Classes        []string // violation class prefixes that belong to this property (others are reported as observations)
 }
 
 var storagePkgs = []string{"tsdb", "tsdb/engine/tsm1", "tsdb/index/tsi1", "pkg/file", "pkg/limiter"}
@@ -55,7 +56,7 @@ var engStub = []string{"disk: simfs pass-through on tmpfs (numbered events, cras
 
 func init() {
 	reg(&checkSpec{
-		ID: "C01", Harness: "eng", Inst: storagePkgs, Level: "exploration",
+		ID: "C01", Harness: "eng", Inst: storagePkgs, Level: "exploration", Classes: []string{"C01:"},
 		Cfgs: []cfgSpec{
 			{Name: "concurrent", Cfg: "clients=3,wdel=0,wdm=0,noreopen", Gating: true, Share: 4},
 			{Name: "with-reopen", Cfg: "clients=2,wdel=0,wdm=0", Gating: true, Share: 2},
@@ -65,5 +66,33 @@ func init() {
 		Probes: []string{"files_level1", "files_level2", "explicit_snapshots"},
 		Real:   engReal, Stub: engStub,
 		Assumptions: []string{"reads are judged with interval semantics (DESIGN §5): a value must belong to a write not definitely overwritten before the read began"},
+	})
+}
+
+func init() {
+	reg(&checkSpec{
+		ID: "C03", Harness: "eng", Inst: storagePkgs, Level: "exploration", Classes: []string{"C03:"},
+		Cfgs: []cfgSpec{
+			{Name: "delete-vs-background", Cfg: "clients=3,wdel=5,wdm=1,wsnap=3,noreopen", Gating: true, Share: 4},
+			{Name: "delete-then-reopen", Cfg: "clients=2,wdel=5,wdm=1", Gating: true, Share: 2},
+			{Name: "delete-then-crash", Cfg: "clients=1,wdel=5,wdm=1,imgcap=6,cutden=40,noreopen,nosettle", Gating: true, Share: 2},
+		},
+		QuickSecs: 60, ThoroughSecs: 900, MaxRunsPerProc: 200,
+		Rule:   "one case = one generated multi-client write/delete/read/snapshot/compaction program under one seeded schedule (plus sampled crash images in the crash configuration); non-trivial = at least 4 operations and one context switch; distinct = distinct hash of (operations, context-switch sequence, crash cuts)",
+		Probes: []string{"tombstones_on_disk", "files_level1"},
+		Real:   engReal, Stub: engStub,
+		Assumptions: []string{"writers and deleters of one measurement exclude each other (the Store's guard, modelled by a harness lock); snapshots, compactions and readers are unconstrained"},
+	})
+	reg(&checkSpec{
+		ID: "C02", Harness: "eng", Inst: storagePkgs, Level: "fault_enumeration", Classes: []string{"C02:", "crash"},
+		Cfgs: []cfgSpec{
+			{Name: "crash-single-client", Cfg: "clients=1,imgcap=10,cutden=25,noreopen,nosettle,wreopen=1", Gating: true, Share: 4},
+			{Name: "crash-concurrent", Cfg: "clients=3,imgcap=6,cutden=60,noreopen,nosettle", Gating: true, Share: 2},
+		},
+		QuickSecs: 60, ThoroughSecs: 900, MaxRunsPerProc: 100,
+		Rule:   "one case = one generated write/delete/snapshot/compaction history plus the crash images cut from it (sampled disk events, torn last write); non-trivial = at least 4 operations and one context switch; distinct = distinct hash of (operations, schedule, crash cuts)",
+		Probes: []string{},
+		Real:   engReal, Stub: engStub,
+		Assumptions: []string{"process-crash model: completed writes survive, the write in flight may be torn at any byte"},
 	})
 }
